@@ -305,6 +305,92 @@ func viaYangentry(files []dump.File, count func(int)) *fail {
 	return nil
 }
 
+// removed: a node that a deviation declares not supported is no longer in the tree, so its path - and
+// the paths of what stood below it - name nothing, from whichever node and in whichever module's
+// spelling they are looked up (also the spelling an augment of that node used before the deviation
+// took it away). The removed nodes are the ones a second set, processed with the option that keeps
+// such targets, has and this set lacks. Sets that hold two revisions of one module are left out: there
+// a spelling may mean the tree of the other revision.
+func removed(ms *yang.Modules, files []dump.File, count func(int)) *fail {
+	any := false
+	for _, x := range files {
+		any = any || strings.Contains(x.Text, "not-supported")
+	}
+	if !any {
+		return nil
+	}
+	byName := map[string]*yang.Module{}
+	for _, m := range ms.Modules {
+		if o := byName[m.Name]; o != nil && o != m {
+			return nil
+		}
+		byName[m.Name] = m
+	}
+	keep := yang.NewModules()
+	keep.ParseOptions.DeviateOptions.IgnoreDeviateNotSupported = true
+	for _, x := range files {
+		if err := keep.Parse(x.Text, x.Name); err != nil {
+			return nil
+		}
+	}
+	if errs := keep.Process(); len(errs) > 0 {
+		return nil
+	}
+	key := func(n *node) string {
+		k := n.tree
+		for _, st := range n.steps {
+			k += "/" + st.name
+		}
+		return k
+	}
+	have := map[string]bool{}
+	nodes := collect(ms)
+	for _, n := range nodes {
+		have[key(n)] = true
+	}
+	total := 0
+	defer func() { count(total) }()
+	for _, t := range collect(keep) {
+		if have[key(t)] {
+			continue
+		}
+		if pr := t.e.Parent; pr != nil && pr.RPC != nil && (t.e == pr.RPC.Input || t.e == pr.RPC.Output) {
+			// the input and output of an rpc or action exist whether written or not: a lookup
+			// makes an empty one, by design; what stood below stays removed
+			continue
+		}
+		for _, s := range nodes {
+			pf := prefixesOf(s.e)
+			if pf == nil {
+				continue
+			}
+			ok := true
+			var parts []string
+			for i, st := range t.steps {
+				mod := st.mod
+				if i == 0 {
+					mod = t.tree
+				}
+				p, have := pf[mod]
+				if !have || mod == "" {
+					ok = false
+					break
+				}
+				parts = append(parts, p+":"+st.name)
+			}
+			if !ok {
+				continue
+			}
+			path := "/" + strings.Join(parts, "/")
+			total++
+			if got := s.e.Find(path); got != nil {
+				return &fail{"lookup-finds-a-node-that-a-deviation-removed", fmt.Sprintf("Find(%q) from %s = nil: a deviation declared the node (or one above it) not supported", path, s.e.Path()), describe(got)}
+			}
+		}
+	}
+	return nil
+}
+
 func check(files []dump.File, count func(int)) (f *fail, clean bool) {
 	pan, pt := core.Guard(func() {
 		ms := yang.NewModules()
@@ -318,6 +404,9 @@ func check(files []dump.File, count func(int)) (f *fail, clean bool) {
 		}
 		clean = true
 		f = lookups(ms, count)
+		if f == nil {
+			f = removed(ms, files, count)
+		}
 		if f == nil && len(files) > 1 {
 			f = viaYangentry(files, count)
 		}
